@@ -22,8 +22,8 @@ ORDER_PRE = "From BX Require Import Base.Prelude Model.Order.\nLocal Open Scope 
 # defect flags of the model that are listed as OPEN findings (cfg_current); a fixed finding leaves this map
 FLAG_OF_FINDING = {
     "C20-raft-replay-future-entry": "restart",
-    "C20-raft-snapshot-unexecuted": "snap",
-    "C20-solo-commit-every-10": "solo10",
+    # "snap" (d_snap_unexecuted) and "solo10" (d_solo_commit10) are fixed in /repo: their flags are off for good;
+    # if either defect comes back the implementation's trace fails predicate 4 / 6 and no allowed flag set explains it
 }
 
 
@@ -264,18 +264,27 @@ def real_to_model(h, t):
     last_applied = 0
 
     def catch_up(st, lead_known, after_crash_from=None):
+        """ops that bring the model from the previous observation to this one.  After a (re)start the real
+        instance first hands out what was committed before (one Ready), then wins the election and
+        commits the new empty entry (another Ready)."""
         nonlocal avail, last_applied
         ram_last = st["st"][7]
         out = []
+        if after_crash_from is not None and avail > after_crash_from:
+            out.append("OReady %d %d %d None" % (after_crash_from + 1, avail, avail))
+            last_applied = avail
         while avail < ram_last:
             out.append("OAppend")
             avail += 1
-        lo = (after_crash_from if after_crash_from is not None else last_applied) + 1
+        lo = last_applied + 1
         out.append("OReady %d %d %d %s" % (min(lo, st["st"][1] + 1), st["st"][1], ram_last, "(Some %d)" % st["st"][5]))
         last_applied = st["st"][1]
         return out
     absorb(steps[0]["r"])
-    first = catch_up(steps[0], True)
+    # start-up: the bootstrap conf change is committed first, the election entry afterwards
+    first = ["OAppend", "OReady 1 1 1 None"]
+    avail, last_applied = 1, 1
+    first += catch_up(steps[0], True)
     ops += first
     obs += [None] * (len(first) - 1) + [steps[0]]
     prev_snap = steps[0]["st"][2]
@@ -300,7 +309,13 @@ def real_to_model(h, t):
         elif name == "crash":
             seq = ["OCrash"] + catch_up(st, True, after_crash_from=prev_snap)
             ops += seq
-            obs += [None] * (len(seq) - 1) + [st]
+            if len(seq) > 1 and seq[1].startswith("OReady") and seq[1].endswith("None"):
+                # commit events of a restart come from the replay Ready; the election entry is empty
+                replay = dict(ev=st["ev"], st=[], bai=[])
+                final = dict(st, ev=[])
+                obs += [None, replay] + [None] * (len(seq) - 3) + [final]
+            else:
+                obs += [None] * (len(seq) - 1) + [st]
         elif name == "wait":
             seq = catch_up(st, True)
             ops += seq
